@@ -88,7 +88,8 @@ func c05BFS(r *Run, depth, shard int) {
 	var stray math.Int
 
 	bfs := &BFS{
-		Scn: scn, MaxDepth: depth, ValidatePaths: shard == 0, RootShard: shard, RootShards: c05Shards,
+		SeqDepth: 3,
+		Scn:      scn, MaxDepth: depth, ValidatePaths: shard == 0, RootShard: shard, RootShards: c05Shards,
 		Init: func(r *Run, w *World, root *Node) {
 			root.Model, root.MKey = c05Model{Out: map[string]string{}}, "{}"
 			genesisSupply = w.Supply("uusdc")
